@@ -104,7 +104,7 @@ func DocTokens(t *rapid.T) []model.Tok {
 
 // DurVals: the numeric-only field used by aggregations (negatives, decimals, exponents,
 // long mantissas; two spellings of the same number on purpose).
-var DurVals = []string{"0", "1", "2", "3", "10", "-1", "-7", "2.5", "-0.5", "1e2", "100", "1.5e1", "15", "0.1", "0.2", "0.30000000000000004", "123456789.125", "1e-3", "4e15", "9007199254740993"}
+var DurVals = []string{"0", "1", "2", "3", "10", "-1", "-7", "2.5", "-0.5", "1e2", "100", "1.5e1", "15", "0.1", "0.2", "0.30000000000000004", "123456789.125", "1e-3", "4e15", "9007199254740993", "1e19", "-1.7320508e19"}
 
 // AggSpecs draws 0..3 aggregation requests over the generated vocabulary.
 func AggSpecs(t *rapid.T, max int) []model.AggSpec {
